@@ -480,7 +480,8 @@ func (u *Union) getLookup(th *Thread, dir Dir) Row {
 				if row == nil {
 					break
 				}
-				if !u.source2Has(th, row) {
+				// if disjoint there is no need (and no index) to look in source2
+				if u.disjoint != "" || !u.source2Has(th, row) {
 					return JoinRows(row, u.empty2)
 				}
 			}
